@@ -77,8 +77,12 @@ def run_one(mut, tier, base_tmp, run_tests):
         dt = time.time() - t0
         out = pr.stdout + pr.stderr
         sigs = [ln.strip() for ln in out.splitlines() if "signature=" in ln]
+        expect = mut.get("expect", "CAUGHT")
         if pr.returncode == 1 and "VIOLATION" in out:
-            return mut, "CAUGHT", f"{dt:.0f}s {tests} {sigs[:2]}"
+            st = "CAUGHT" if expect == "CAUGHT" else "FALSE-ALARM(expected silent)"
+            return mut, st, f"{dt:.0f}s {tests} {sigs[:2]}"
+        if expect == "MISSED" and pr.returncode == 0:
+            return mut, "CAUGHT", f"silent as expected (equivalent mutant) {dt:.0f}s"
         return mut, "MISSED", f"exit={pr.returncode} {dt:.0f}s {tests} {out[-400:]}"
     finally:
         shutil.rmtree(d, ignore_errors=True)
